@@ -9,7 +9,8 @@ ID = "C03"
 LEVEL = "exploration"
 NSLICES = 32
 RULE = (
-    "E1 exhaustive grid of ordered pairs. Families: lists (L in L<=2, R in L<=1 over T({x,y},{-1,0,1,2},{0,1,2}), "
+    "E1 exhaustive grid of ordered pairs. Families: lists (L in L<=2, R in L<=1 over T({x,y},{-1,0,1,2},{-2,0,1}): negative "
+    "constants give polyhedra away from the origin and separated pairs with gaps above and below the LP's slack of 1; "
     "complete in quick; R with 2 terms: one 1/%d slice in quick, complete in thorough), derived (R = positive "
     "combinations / scalings / duplicates of L's terms with multipliers {1,2,1/2}), v3 (3 variables, thorough), "
     "contracts (all ordered pairs of 133 contracts over one interface: refines, <=, contains_environment, "
@@ -26,7 +27,7 @@ V2 = ["x", "y"]
 
 
 def _T2():
-    return grids.terms(V2, [-1, 0, 1, 2], [0, 1, 2])
+    return grids.terms(V2, [-1, 0, 1, 2], [-2, 0, 1])
 
 
 def _scale(t, k):
@@ -41,8 +42,8 @@ def _add(t, u):
 
 
 def _contracts():
-    a_terms = grids.terms(["i"], [-1, 1], [0, 1, 2])
-    g_terms = [t for t in grids.terms(["i", "o"], [-1, 0, 1], [0, 1, 2]) if "o" in t[0]]
+    a_terms = grids.terms(["i"], [-1, 1], [-2, 0, 1])
+    g_terms = [t for t in grids.terms(["i", "o"], [-1, 0, 1], [-2, 0, 1]) if "o" in t[0]]
     out = []
     for a in grids.lists_upto(a_terms, 1):
         for g in grids.lists_upto(g_terms, 1):
